@@ -89,8 +89,16 @@ def W(**kw):
 
 PROPS['C04'] = dict(coq=['Properties/C04.v'], **hist_prop(
     'C04', {'C04'}, W(slice=10, index=3, clip=4, iter=1.5), 1500, 40000, hg={'odd': 'mix'}))
+def _c05_seams(rep, rng, tier, term):
+    from . import smallscope
+    hs = list(smallscope.seam_histories(full=(tier != 'quick')))
+    ov, dv = runner.explore_list(rep, {'C05'}, hs, term=term, tag='seam_configurations')
+    rep.notes.append('seam configurations: %d histories (three settings stopping together at the seam in every order, '
+                     'right operand starting with every ordered selection of their values)' % len(hs))
+    return ov, dv
+
 PROPS['C05'] = dict(coq=['Properties/C05.v'], **hist_prop(
-    'C05', {'C05'}, W(add=8, iadd=8, join=3, slice=4), 1500, 40000, hg={'odd': 'mix'}))
+    'C05', {'C05'}, W(add=8, iadd=8, join=3, slice=4), 1500, 40000, hg={'odd': 'mix'}, extra=_c05_seams))
 PROPS['C06'] = dict(coq=['Properties/C06.v'], **hist_prop(
     'C06', {'C06'}, W(apply=14, slice=2), 1500, 40000, hg={'odd': 'mix'}))
 PROPS['C07'] = dict(coq=['Properties/C07.v'], **hist_prop(
